@@ -175,7 +175,6 @@ static void COEmcySend(CO_EMCY *emcy, uint8_t err, CO_EMCY_USR *usr, uint8_t sta
 
 void COEmcyInit(CO_EMCY *emcy, CO_NODE *node, CO_EMCY_TBL *root)
 {
-    const CO_OBJ_TYPE *hist = CO_TEMCY_HIST;
     CO_OBJ   *obj;
     uint16_t  n;
     uint32_t  size;
@@ -193,6 +192,11 @@ void COEmcyInit(CO_EMCY *emcy, CO_NODE *node, CO_EMCY_TBL *root)
     for (n=0; n < CO_EMCY_REG_NUM; n++) {
         emcy->Cnt[n] = 0;
     }
+
+    /* the error history is set up by the initialisation of object 1003h */
+    emcy->Hist.Max = 0;
+    emcy->Hist.Num = 0;
+    emcy->Hist.Off = 0;
 
     /* error register is mandatory */
     obj = CODictFind(&node->Dict, CO_DEV(0x1001,0));
@@ -224,9 +228,6 @@ void COEmcyInit(CO_EMCY *emcy, CO_NODE *node, CO_EMCY_TBL *root)
             }
         }
     }
-
-    obj = CODictFind(&node->Dict, CO_DEV(0x1003,0));
-    hist->Init(obj, node);
 }
 
 /******************************************************************************
